@@ -5,6 +5,7 @@ from fractions import Fraction
 
 from .. import astq, nonecheck
 from .. import sym as S
+from ..report import MISSING
 from ..model import AnalysisError
 from ..symeval import SymEval
 from . import cli_common as cc
@@ -112,8 +113,8 @@ def spacing(ctx, R="R-C05-spacing"):
             ctx.check(len(loops) == 1, R, f, f.node, "%s: filters are built from adjacent edge pairs, in order" % name, "no loop over zip(edges[:-1], edges[1:])")
             if loops:
                 cs = [n for n in loops[0].body if isinstance(n, ast.Assign) and astq.is_name(n.targets[0], "center_hz")]
-                ok = len(cs) == 1 and astq.text(cs[0].value).replace(" ", "") == "(left_intersect+right_intersect)/2"
-                ctx.check(ok, R, f, cs[0] if cs else loops[0], "%s: a centre is the mean of its two edges" % name)
+                ok = len(cs) == 1 and astq.eq_text(cs[0].value, "(left_intersect+right_intersect)/2")
+                ctx.check(ok, R, f, cs[0] if cs else MISSING(loops[0]), "%s: a centre is the mean of its two edges" % name)
 
 
 def _la(prog, name, seed):
@@ -234,7 +235,7 @@ def triangle(ctx, R="R-C05-triangle"):
             if name == "Fbank":
                 txt = astq.text(f.node).replace(" ", "")
                 ok = ("res[idx]=val**0.5" in txt) if meth == "get_frequency_response" else any(
-                    isinstance(r_.value, ast.Tuple) and astq.text(r_.value.elts[-1]).replace(" ", "") == "res**0.5" for r_ in astq.returns_of(f))
+                    isinstance(r_.value, ast.Tuple) and astq.eq_text(r_.value.elts[-1], "res**0.5") for r_ in astq.returns_of(f))
                 ctx.check(ok, R, f, f.node, "Fbank.%s takes the square root of the mel triangle" % meth, "Fbank.%s does not square-root the triangle" % meth)
                 mels = {astq.text(n.targets[0]): astq.text(n.value).replace(" ", "") for n in f.body_nodes() if isinstance(n, ast.Assign) and isinstance(n.targets[0], ast.Name)}
                 ok = mels.get("left_mel") == "scaling_function.hertz_to_scale(left_hz)" and mels.get("mid_mel") == "scaling_function.hertz_to_scale(mid_hz)" and \
@@ -252,12 +253,12 @@ def centres(ctx, R="R-C05-centres"):
         c = fc.bank(prog, name)
         f = prog.own_method(c, "centers_hz")
         r = astq.returns_of(f)
-        ctx.check(len(r) == 1 and astq.text(r[0].value) == "self._vertices[1:-1]", R, f, r[0] if r else f.node, "%s.centers_hz are the interior vertices" % name)
+        ctx.check(len(r) == 1 and astq.text(r[0].value) == "self._vertices[1:-1]", R, f, r[0] if r else MISSING(f.node), "%s.centers_hz are the interior vertices" % name)
         g = prog.own_method(c, "supports_hz")
         txt = astq.text(astq.returns_of(g)[0].value).replace(" ", "")
         ctx.check("zip(self._vertices[:-2],self._vertices[2:])" in txt, R, g, g.node, "%s.supports_hz[i] spans vertices i and i+2 (so centre i lies inside)" % name)
         nf = prog.own_method(c, "num_filts")
-        ctx.check(astq.text(astq.returns_of(nf)[0].value).replace(" ", "") == "len(self._vertices)-2", R, nf, nf.node, "%s.num_filts = number of vertices - 2" % name)
+        ctx.check(astq.eq_text(astq.returns_of(nf)[0].value, "len(self._vertices)-2"), R, nf, nf.node, "%s.num_filts = number of vertices - 2" % name)
     for name in fc.EDGE_BANKS:
         c = fc.bank(prog, name)
         f = prog.own_method(c, "centers_hz")
